@@ -169,10 +169,12 @@ def run(tier):
             elif len(pr) != 1 or len(ps) != 1:
                 case["outcome"] = "dropped"
             else:
-                o1 = classify(T, value, getattr(pr[0], "f"))
-                sv = ps[0].get("f")
-                o2 = classify(T, value, sv)
-                case["outcome"] = o1 if o1 == o2 or o2 in ("same", "single", "utc") else "different"
+                try:
+                    o1 = classify(T, value, getattr(pr[0], "f"))
+                    o2 = classify(T, value, ps[0]["f"])
+                    case["outcome"] = o1 if o1 == o2 or o2 in ("same", "single", "utc") else "different"
+                except Exception:
+                    case["outcome"] = "different"     # the probe came back without its field / in another shape
             case["descriptor_carried"] = libdesc is not None and libdesc.name == goodD.name and tuple(libdesc.get_field_tuples()) == tuple(goodD.get_field_tuples())
         return case
 
